@@ -472,7 +472,20 @@ class Runner:
     def goal_files(self, goals):
         if not goals:
             return set(self.default_files)
-        return {'build/' + x for x in goals}
+        c = self.c
+        model = c.proj.model or {}
+        files = set()
+        for x in goals:
+            files.add('build/' + x)
+            # phony goals stand for their declared members
+            if x == 'tests':
+                for t in model.get('tests', ()):
+                    files |= c.outputs_named(t)
+                files |= {'build/' + f
+                          for f in model.get('test_deps_files', ())}
+            for m in (model.get('aliases') or {}).get(x, ()):
+                files |= c.outputs_named(m)
+        return files
 
     def model_goals(self):
         c, proj = self.c, self.c.proj
@@ -536,10 +549,7 @@ class Runner:
             else:
                 c.null_build(op[1], self.goal_files(op[1]))
         elif k == 'null-everything':
-            files = set()
-            for x in self.everything:
-                files.add('build/' + x)
-            files |= self.default_files
+            files = self.goal_files(self.everything) | self.default_files
             key = tuple(self.everything)
             if key not in self.built:
                 c.build(self.everything, label='build')
